@@ -5,11 +5,11 @@ src="$1"; wt=/tmp/wt/confirm_$$
 git -C /repo worktree add --detach "$wt" HEAD -q || exit 2
 trap 'git -C /repo worktree remove --force "$wt"' EXIT
 cd "$wt"
-PYTHONPATH="$wt" timeout 900 /venv/bin/python "$src/demo.py" >/tmp/confirm_clean.log 2>&1; a=$?
+PYTHONPATH="$wt" timeout 900 /venv/bin/python "$src/demo.py" >/tmp/confirm_clean_$$.log 2>&1; a=$?
 git apply "$src/patch.diff" || { echo "PATCH DOES NOT APPLY"; exit 2; }
 git diff --stat | tail -3
-timeout 900 /venv/bin/python -m pytest -q -p no:cacheprovider tests >/tmp/confirm_tests.log 2>&1; t=$?
-PYTHONPATH="$wt" timeout 900 /venv/bin/python "$src/demo.py" >/tmp/confirm_mut.log 2>&1; b=$?
-echo "demo clean exit=$a  tests exit=$t ($(tail -1 /tmp/confirm_tests.log))  demo mutated exit=$b"
-tail -2 /tmp/confirm_mut.log | cut -c1-300
+timeout 900 /venv/bin/python -m pytest -q -p no:cacheprovider tests >/tmp/confirm_tests_$$.log 2>&1; t=$?
+PYTHONPATH="$wt" timeout 900 /venv/bin/python "$src/demo.py" >/tmp/confirm_mut_$$.log 2>&1; b=$?
+echo "demo clean exit=$a  tests exit=$t ($(tail -1 /tmp/confirm_tests_$$.log))  demo mutated exit=$b"
+tail -2 /tmp/confirm_mut_$$.log | cut -c1-300
 [ $a -eq 0 ] && [ $t -eq 0 ] && [ $b -ne 0 ] && echo CONFIRMED || echo NOT-CONFIRMED
